@@ -216,4 +216,9 @@ def mc_record(out, name, r, expect_fail=False, must_cover=()):
         for a in must_cover:
             if r.coverage.get(a, (0, 0))[1] == 0:
                 raise Broken("model %s: action %s never taken (vacuous)" % (name, a))
+        # no action of a positive model may be dead: an invariant over transitions that never
+        # happen is not evidence
+        dead = [a for a, (taken, gen) in r.coverage.items() if gen == 0]
+        if dead:
+            raise Broken("model %s: action(s) never taken: %s" % (name, ", ".join(dead)))
     return rec, True
